@@ -19,8 +19,12 @@ Agrees(a, b) == a.n = b.n /\ a.vh = b.vh
 Distinct(a, b) == (a.route # "" /\ b.route # "") => a.route # b.route
 
 (* reg: function from the keys seen so far to the stored observation *)
+\* Acceptance is agreement only.  Whether the two observations really came from different
+\* routes (Distinct) is an anti-vacuity condition of the CHECK, not part of the property: a
+\* routing change that keeps the output equal is not a violation.  The driver counts the pairs
+\* with distinct routes and reports a tool-level "vacuous" condition when too few are.
 Accept(reg, k, ob) ==
-  IF k \in DOMAIN reg THEN Agrees(reg[k], ob) /\ Distinct(reg[k], ob) ELSE TRUE
+  IF k \in DOMAIN reg THEN Agrees(reg[k], ob) ELSE TRUE
 
 Store(reg, k, ob) == IF k \in DOMAIN reg THEN reg ELSE (k :> ob) @@ reg
 
